@@ -94,6 +94,19 @@ func init() {
 				`set_account_meta(@a, "k", 10%)`,
 			}
 			var cases []Case
+			// a variable used inside + / - and again by a later statement (nothing but balances may carry over)
+			infix := []string{
+				sendFixed("USD", "@world", "{ max $fee + [USD 1] to @fees remaining to @merchant }"),
+				sendFixed("USD", "@world", "{ max $fee - [USD 1] to @fees remaining kept }"),
+				"send $fee + $fee (\n  source = @world\n  destination = @d\n)",
+			}
+			reuse := []string{"send $fee (\n  source = @world\n  destination = @tax\n)", `set_tx_meta("fee", $fee)`, "save $fee from @a"}
+			for _, a := range infix {
+				for _, b := range reuse {
+					cases = append(cases, c09Case("variable-reuse-after-infix", []string{a, b}, map[string][2]string{"fee": {"monetary", "mon:USD"}}))
+				}
+			}
+			cases = append(cases, c09Case("variable-reuse-after-infix", []string{`set_tx_meta("a", $n + 1)`, `set_tx_meta("b", $n)`, `set_tx_meta("c", $n - $n)`}, map[string][2]string{"n": {"number", "num"}}))
 			n := len(stm)
 			for i := 0; i < n; i++ {
 				for j := 0; j < n; j++ {
